@@ -4914,6 +4914,21 @@ func (t *Terminal) Loop() error {
 		barrier <- true
 		needBarrier = false
 	}
+	// The coordinator posts load/result/zero/one events while it holds t.mutex.
+	// Once this loop is gone nobody reads them: keep the channel drained, or a
+	// full channel blocks the coordinator for good and the exit path, which needs
+	// the mutex, with it.
+	defer func() {
+		go func() {
+			for {
+				select {
+				case <-t.eventChan:
+				case <-ctx.Done():
+					return
+				}
+			}
+		}()
+	}()
 	for loopIndex := int64(0); looping; loopIndex++ {
 		var newCommand *commandSpec
 		var newNth *[]Range
